@@ -417,7 +417,7 @@ func (c *Ctx) requireOnFailure(rr *RuleRep, a *retryAnchors, f *ssa.Function, ds
 
 // ---- R-C12-4: deferred first transmission captures a complete private copy -----------------------------
 
-func (c *Ctx) ruleDeferredCopy(rr *RuleRep) {
+func (c *Ctx) ruleDeferredCopy(rr *RuleRep, only ...string) {
 	a := c.retryAnchors()
 	if a.lost(rr) {
 		return
@@ -509,6 +509,17 @@ func (c *Ctx) ruleDeferredCopy(rr *RuleRep) {
 					}
 				}
 				if !found && fld.Name() != "Dup" { // Dup is overwritten by publishImpl before Pack (R-C12-3)
+					if len(only) > 0 {
+						keep := false
+						for _, o := range only {
+							if o == fld.Name() {
+								keep = true
+							}
+						}
+						if !keep {
+							continue
+						}
+					}
 					missing = append(missing, fld.Name())
 				}
 			}
